@@ -666,6 +666,29 @@ def reshape_term(ip, t, kindname, n, node=None):
     return N.transform(t, leaf)
 
 
+def shape_getitem(ip, o, args, kwargs, node):
+    arr = o.attrs['arr']
+    t, _ = ip.term_of(arr, node)
+    i = args[0]
+    if not is_const_num(i):
+        raise Unsupported('symbolic shape index', node)
+    i = int(num_value(i))
+    if P.is_pw(t):
+        t = next(P.leaves(t))
+    nd = ndim_of(ip, t)
+    kinds = {ip.sym_kind.get(a[1]) for a in t.all_atoms() if a[0] == 'sym'} - {'scalar', None}
+    if kinds <= {'tensor', 'mat1'} and kinds:
+        if i in (1, 2):
+            return Num(ip.declare('n_types', integer=True), 'scalar')
+        if i == 0 and kinds == {'tensor'}:
+            return Num(ip.declare('L', integer=True), 'scalar')
+    if i == 0:
+        return Num(length_of(ip, t), 'scalar')
+    name = 'shape%d(%s)' % (i, P.show(t))
+    N.declare_int(name)
+    return Num(N.sym(name), 'scalar')
+
+
 def seq_attr(ip, o, name, node):
     if name == 'append':
         def app(ip2, s, a, k, n):
